@@ -22,6 +22,17 @@ func init() {
 
 func c22(r *Run) {
 	w := r.W
+	// R4: the forward path of the syncer: every block consensus accepts while syncing enters the window
+	r.rule("C22.R4", "K1", "Syncer.accept records every forward block in the validity window, whatever it reports about completion", 1)
+	if sa := r.fn(w, "C22.R4", "(*"+pkgVW+".Syncer).accept"); sa != nil {
+		ac := findEffects(sa, "call (*internal/validitywindow.TimeValidityWindow).Accept(p0.timeValidityWindow, p1)")
+		okk := len(ac) == 1
+		if okk {
+			okp, _ := mustPass(entry(sa), isReturn, isInstr(ac[0].Ins))
+			okk = okp
+		}
+		r.check(okk, "C22.R4", "Syncer.accept:window-accepts-on-every-path", w.rel(sa.Pos()), "", "a block accepted while syncing can return from Syncer.accept without having been recorded in the validity window: its transactions are invisible to the replay check after the hand-over")
+	}
 	r.rule("C22.R1", "K1", "emit only parsed, hash-linked blocks; lastBlock/expected parent/resume height advance only from emitted blocks", 5)
 	r.rule("C22.R2", "K1", "AcceptHistorical only after SaveHistorical succeeded; a save error is reported and the syncer does not signal done", 3)
 	r.rule("C22.R3", "K6", "completion conditions of client and handler", 4)
